@@ -180,6 +180,12 @@ class FuncRun(FunctionEngine):
             pv.pc = cur.pc    # pre-state heap, current path condition (definitional facts of spec terms land here)
             w = self.eval_spec(when, env0, pv, pre=pre)
             self.emit(cur, 'raises', f'{lab}:must-raise', z3.Not(w), tag='property')
+        for lab, (exc, when) in (c.get('must_raise') or {}).items():
+            # one-directional: whenever `when` holds on entry the function must not return normally
+            pv = pre.copy()
+            pv.pc = cur.pc
+            w = self.eval_spec(when, env0, pv, pre=pre)
+            self.emit(cur, 'raises', f'{lab}:must-raise', z3.Not(w), tag='property')
         ens = c.get('ensures', {})
         for lab, item in ens.items():
             tag, expr = item if isinstance(item, tuple) else ('carrier', item)
